@@ -270,6 +270,13 @@ class C16(Prop):
                 ref, refres = bper, base
             res, per = self.observe(v)
             base.extra["variants"][stack] = res.digest
+            # the configured timeouts reach the connection that does the work (observed at the socket seam)
+            tobs = [o for o in res.world.obs if o["oracle"].startswith("wrong-timeout")]
+            if tobs and not any(o["oracle"].startswith("wrong-timeout") for o in base.world.obs):
+                o = tobs[0]
+                out.append({"oracle": "timeouts-differ-from-client", "method": None, "disc": stack,
+                            "step": max([c.step for c in res.calls if c.id == o.get("call")] + [0]),
+                            "detail": {"stack": stack, "observed": {k: repr(v_)[:60] for k, v_ in o.items()}}})
             for step in sorted(ref):
                 a, b = ref[step], per.get(step)
                 d = self.diff(a, b)
